@@ -61,6 +61,15 @@ Theorem C13_gen_construct_site_guarded :
 Proof. vm_compute. auto. Qed.
 Print Assumptions C13_gen_construct_site_guarded.
 
+(* "only allowed once": in MCNP_Problem.__load_data_inputs_to_object (MODE) and Cells.update_pointers (VOL, U, LAT,
+   FILL) the key recorded for an input is the key tested for the next one, and the error raised is a documented class —
+   a second MODE input cannot pass unnoticed *)
+Theorem C13_gen_once_only :
+  once_rules_ok H gen_once_rules
+    ["mcnp_problem.py:MCNP_Problem.__load_data_inputs_to_object"; "cells.py:Cells.update_pointers"] = true.
+Proof. vm_compute. reflexivity. Qed.
+Print Assumptions C13_gen_once_only.
+
 (* the per-input handler of parse_input and the pointer-update handlers report exactly these classes in check mode
    (a narrowed except tuple or a handler that re-raises breaks this) *)
 Definition warned_at (sname : string) (c : cls) : option (cls * bool) := warned_by H hs (site_chain gen_tables sname) c.
